@@ -251,7 +251,7 @@ def worker(wseed, binary, budget_s):
                 sc.setup(n, 0 if move == "none" else max(3, n // 2))
                 out, info = sc.run(move, count, pattern, typ)
             except (Closed, Timeout) as e:
-                if not srv.alive():
+                if not srv.settle():
                     res.violation("server-died/%s" % kind, "server exited %s during %s COUNT %s\n%s" % (srv.exit_status(), kind, count, srv.stderr_tail(1500)))
                     srv.restart()
                 else:
